@@ -541,6 +541,11 @@ UNDECIDABLE_REFACTORS = {
     "R14_6": ("C14",),   # vendored euler_from_matrix split into helpers: the
                          # summary (A4) was derived from the original code
     "R14_8": ("C14",),   # same function, middle angle hoisted out of the `if`
+    "R02_9": ("C02", "C12", "C05", "C10"),  # delta_ids becomes a property computed from
+    #                      id_pairs: a property added later is looked through
+    #                      (wave 10), and that rpe() still reduces with the
+    #                      end indices of the pairs the values were computed
+    #                      for is then not read off `[0] + delta_ids`
     # wave 7
     "R09_10": ("C09", "C01", "C02", "C10", "C12"),
     #                      rotation angles vectorised: one scipy Rotation for
@@ -640,6 +645,141 @@ UNDECIDABLE_REFACTORS = {
     #     C18.3 at evo/tools/settings.py:113 (evo.tools.settings.reset): form not recognised, no evidence of a deviation
     "R20_15": ("C20",),
     #     C20.3 at evo/tools/plot.py:442: xy: segment entry (vertex, axis) (0, 0) of the construction is not understood:
+    # wave 10 (behaviour-preserving restructurings in five harder styles:
+    # object-oriented, data-flow, table-driven, signature work, cross-module).
+    # The checks decline on these; first reason as reported by the check:
+    "R01_19": ("C01", "C02", "C03", "C04", "C05", "C10", "C11", "C12", "C15",),
+    #     C01.5 at evo/common_ape_rpe.py:137: motion filter: thresholds compared inside the filter not found / not evalu
+    "R01_20": ("C01", "C02", "C05", "C10", "C11", "C12",),
+    #     analysis stopped: APE[full_transformation]: self.error is never assigned
+    "R01_21": ("C01", "C02",),
+    #     C01.1 at evo/core/metrics.py:419: form not recognised, no evidence of a deviation: [evo.core.metrics.APE.proce
+    "R02_19": ("C10",),
+    #     C10.1 at evo/core/filters.py:89 (evo.core.filters.filter_pairs_by_index): frames/consecutive: the pairs are no
+    "R02_20": ("C02", "C05", "C10", "C12",),
+    #     analysis stopped: RPE[full_transformation]: error / delta_ids never assigned
+    "R02_21": ("C01", "C02", "C10",),
+    #     C01.1 at evo/core/metrics.py:421: form not recognised, no evidence of a deviation: [evo.core.metrics.APE.proce
+    "R03_18": ("C03", "C04", "C08",),
+    #     analysis stopped: SVD call not found (unknown idiom)
+    "R03_19": ("C03", "C04",),
+    #     C03.5 at evo/core/geometry.py:83 (evo.core.geometry.umeyama_alignment): covariance construction not recognised
+    "R03_21": ("C01", "C02", "C03", "C04", "C08",),
+    #     C01.9 (shared clause of C04): c04: test of n against its 'all poses' marker not found in align (unknown idiom)
+    "R04_18": ("C01", "C02", "C04", "C05", "C08", "C11", "C12", "C15", "C20",),
+    #     C01.6 (shared clause of C08): c08: anchor function vanished: evo.core.trajectory.PosePath3D.num_poses
+    "R04_19": ("C03", "C04",),
+    #     C03.6 at evo/core/geometry.py:52 (evo.core.geometry.umeyama_alignment): [with_scale=True] equivariance typing:
+    "R04_20": ("C08", "C15",),
+    #     C08.5 at evo/core/trajectory.py:214 (evo.core.trajectory.PosePath3D.transform): transform[propagate]: the stor
+    "R04_21": ("C01", "C02", "C03", "C04", "C08",),
+    #     C01.9 (shared clause of C04): c04: align[correct_scale=False,only_scale=False,n==-1]: no Umeyama call
+    "R05_19": ("C01", "C02", "C05", "C15",),
+    #     C01.7 (shared clause of C05): c05: append of matching indices not found (unknown idiom)
+    "R05_21": ("C11", "C15",),
+    #     C11.8 (shared clause of C15): c15: step `associate` not found in evo.main_traj.run (anchor vanished / unknown 
+    "R06_18": ("C06",),
+    #     C06.5 at evo/tools/file_interface.py:427 (evo.tools.file_interface.write_bag_trajectory): form not recognised,
+    "R06_19": ("C06", "C13",),
+    #     C06.5 at evo/tools/pandas_bridge.py:62 (evo.tools.pandas_bridge.trajectory_to_df): trajectory_to_df: column co
+    "R06_21": ("C15",),
+    #     C15.9 at evo/main_traj.py:179 (evo.main_traj.run): export as tum: the writer is handed to a worker function; w
+    "R07_19": ("C01", "C02", "C06", "C07",),
+    #     C01.7 (shared clause of C07): c07: KITTI reader: pose construction not recognised (unknown idiom): list[np.con
+    "R07_20": ("C01", "C02", "C06", "C07",),
+    #     C07.1 at evo/tools/file_interface.py:540 (evo.tools.file_interface.load_transform): form not recognised, no ev
+    "R07_21": ("C17",),
+    #     C17.2 at evo/tools/file_interface.py:237: form not recognised, no evidence of a deviation: numpy.savetxt in ev
+    "R08_18": ("C01", "C02", "C04", "C05", "C08", "C11", "C12", "C15", "C20",),
+    #     C01.6 (shared clause of C08): c08: anchor function vanished: evo.core.trajectory.PosePath3D.num_poses
+    "R08_19": ("C01", "C02", "C05", "C08", "C10", "C11", "C12", "C15",),
+    #     C01.5 at evo/common_ape_rpe.py:137: motion filter: thresholds compared inside the filter not found / not evalu
+    "R08_20": ("C08", "C15",),
+    #     C08.5 at evo/core/trajectory.py:217 (evo.core.trajectory.PosePath3D.transform): transform[propagate]: the stor
+    "R08_21": ("C01", "C02", "C04", "C05", "C08", "C11", "C12", "C15", "C20",),
+    #     C01.6 (shared clause of C08): c08: expected >=4 view-writing methods, found ['evo.core.trajectory.PosePath3D.p
+    "R08_22": ("C01", "C02", "C05", "C10", "C12",),
+    #     _pipeline: evo.main_ape.ape: pipeline steps not found (unknown idiom)
+    "R09_18": ("C01", "C02", "C09", "C10",),
+    #     C09.4 at evo/core/lie_algebra.py:167 (evo.core.lie_algebra.so3_log_angle): angle idiom not recognised: (float(
+    "R09_21": ("C01", "C02", "C04", "C09",),
+    #     C09.2 at evo/core/lie_algebra.py:202 (evo.core.lie_algebra.sim3_inverse): sim3_inverse: construction not under
+    "R10_18": ("C10",),
+    #     C10.1 at evo/core/filters.py:120 (evo.core.filters.filter_pairs_by_path): form not recognised, no evidence of 
+    "R10_19": ("C10",),
+    #     C10.2 at evo/core/filters.py:53 (evo.core.filters.filter_pairs_by_index): frames/all-pairs: the pairs are not 
+    "R10_20": ("C02", "C10",),
+    #     C10.6 at evo/core/metrics.py:485 (evo.core.metrics.id_pairs_from_delta): form not recognised, no evidence of a
+    "R10_21": ("C10",),
+    #     C10.8 at evo/core/filters.py:181: angle/all-pairs search: start / candidate rotation stacks not recognised
+    "R11_19": ("C01", "C02", "C05", "C10", "C11", "C12", "C15",),
+    #     C01.5 at evo/common_ape_rpe.py:137: motion filter: thresholds compared inside the filter not found / not evalu
+    "R11_20": ("C01", "C02", "C04", "C05", "C08", "C11", "C12", "C15", "C20",),
+    #     CRASH         ^^^^^^^^^^^^^   File "/verif/sa/core.py", line 187, in import_rules     mod.check(sub)   File "/
+    "R11_21": ("C02", "C05", "C08", "C11", "C12", "C15",),
+    #     C08.3 at evo/core/trajectory.py:338 (evo.core.trajectory.PosePath3D.downsample): form not recognised, no evide
+    "R12_18": ("C12",),
+    #     C12.1 at evo/core/metrics.py:224 (evo.core.metrics.PE.get_result): form not recognised, no evidence of a devia
+    "R12_19": ("C02", "C05", "C10", "C12",),
+    #     C02.3 at evo/core/metrics.py:259 (evo.core.metrics.RPE.process_data): form not recognised, no evidence of a de
+    "R12_20": ("C12",),
+    #     C12.1 at evo/core/metrics.py:205 (evo.core.metrics.PE.get_statistic): statistic rmse: formulation not recognis
+    "R12_21": ("C12",),
+    #     C12.3 at evo/core/metrics.py:149 (evo.core.metrics.PE.change_unit): form not recognised, no evidence of a devi
+    "R13_19": ("C13",),
+    #     C13.3 at evo/core/result.py:103 (evo.core.result.merge_results): refusal of differing `np_arrays` key sets: th
+    "R13_20": ("C17",),
+    #     C17.2 at evo/tools/pandas_bridge.py:117: pandas.ExcelWriter in evo.tools.pandas_bridge._write_excel_table, a f
+    "R13_21": ("C13",),
+    #     _tables: evo_res: save_df_as_table call not found
+    "R14_18": ("C14",),
+    #     C14.1 at evo/core/trajectory.py:254 (evo.core.trajectory.PosePath3D.project): form not recognised, no evidence
+    "R14_19": ("C14",),
+    #     analysis stopped: vendored euler_from_matrix: the middle angle is no longer +-atan2(., sqrt(.)) on every path;
+    "R14_20": ("C14",),
+    #     C14.1 at evo/core/trajectory.py:230 (evo.core.trajectory.PosePath3D.project): Plane.XY: the axis of the rebuil
+    "R14_21": ("C14",),
+    #     analysis stopped: Plane.XY: heading is not an element of euler_from_matrix(...) (unknown idiom: functools.part
+    "R14_22": ("C01", "C02", "C05", "C10", "C12",),
+    #     _pipeline: evo.main_ape.ape: pipeline steps not found (unknown idiom)
+    "R15_18": ("C11", "C15",),
+    #     C11.8 (shared clause of C15): c15: step `merge` not found in evo.main_traj.run (anchor vanished / unknown idio
+    "R15_19": ("C01", "C02", "C05", "C08", "C10", "C11", "C12", "C15",),
+    #     C01.5 at evo/common_ape_rpe.py:137: motion filter: thresholds compared inside the filter not found / not evalu
+    "R15_20": ("C01", "C02", "C06", "C07",),
+    #     C07.1 at evo/tools/file_interface.py:521 (evo.tools.file_interface.load_transform): form not recognised, no ev
+    "R15_21": ("C15", "C17",),
+    #     C15.9 at evo/main_traj.py:202 (evo.main_traj.run): export as tum: the writer is handed to a worker function; w
+    "R15_22": ("C01", "C02", "C05", "C10", "C12",),
+    #     _pipeline: evo.main_ape.ape: pipeline steps not found (unknown idiom)
+    "R16_19": ("C01", "C02", "C05", "C13", "C15",),
+    #     C01.7 (shared clause of C05): c05: append of matching indices not found (unknown idiom)
+    "R16_20": ("C01", "C02", "C12",),
+    #     C01.3 at evo/core/metrics.py:384 (evo.core.metrics.APE.process_data): APE[translation_part]: reducer idiom not
+    "R16_21": ("C06", "C13", "C17",),
+    #     C06.3 at evo/tools/file_interface.py:449 (evo.tools.file_interface.save_res_file): form not recognised, no evi
+    "R17_19": ("C15", "C17",),
+    #     C15.9 at evo/main_traj.py:198 (evo.main_traj.run): export as tum: the writer is handed to a worker function; w
+    "R17_20": ("C17",),
+    #     C17.2 at evo/tools/pandas_bridge.py:137: form not recognised, no evidence of a deviation: pandas.ExcelWriter i
+    "R17_21": ("C17",),
+    #     C17.2 at evo/tools/file_interface.py:455: form not recognised, no evidence of a deviation: zipfile.ZipFile(mod
+    "R18_18": ("C18", "C19",),
+    #     C18.3 at evo/tools/settings.py:159 (evo.tools.settings.reset): form not recognised, no evidence of a deviation
+    "R18_19": ("C18",),
+    #     C18.1 at evo/main_config.py:172: form not recognised, no evidence of a deviation: set: config[elem<1>(?<genera
+    "R18_20": ("C18",),
+    #     C18.2 at evo/main_config.py:172 (evo.main_config.finalize_values): form not recognised, no evidence of a devia
+    "R19_19": ("C18",),
+    #     _set_config: set_config: config stores not found
+    "R19_21": ("C19",),
+    #     C19.1 at evo/tools/settings.py:98 (evo.tools.settings.atomic_target): form not recognised, no evidence of a de
+    "R20_18": ("C20",),
+    #     C20.3 at evo/tools/plot.py:577: form not recognised, no evidence of a deviation: correspondence edges: interle
+    "R20_20": ("C20",),
+    #     C20.1 at evo/tools/plot.py:323 (evo.tools.plot.prepare_axis): form not recognised, no evidence of a deviation:
+    "R20_21": ("C20",),
+    #     _time_axes: traj_xyz: expected 3 plot rows
     "R16_10": ("C13",),  # merge accumulation moved into helpers that iterate
     #                      [r.stats for r in results][1:]: a list built by a
     #                      map and iterated again is not read through to its
